@@ -100,7 +100,9 @@ class C19(F.PropCheck):
         return pad, m + d + pad
 
     def gen_dev(self, rng, cid, tier):
-        kind = rng.choice(['shutter', 'shutter', 'relay', 'relay', 'silent', 'quiet-after-reg'])
+        kind = rng.choice(['shutter', 'shutter', 'relay', 'relay', 'silent', 'quiet-after-reg', 'autocal-stall', 'autocal-stall', 'cfg-button', 'action-trigger'])
+        if rng.random() < 0.01: kind = 'rs-10min'
+        if kind in self.SPECIAL: return self.SPECIAL[kind](self, rng, cid)
         tags = ['dev', 'dev:' + kind]
         if kind == 'shutter':
             c = C8.CHECK.gen_sys(rng, cid, tier, boot=1)
@@ -147,6 +149,124 @@ class C19(F.PropCheck):
         cfg = cfg[:16] + boots
         cfg[0] = 1
         return F.Case(cid, [('CFG', cfg, b'')] + evs, tags)
+
+    # ---- scenarios aimed at the elapsed-time comparisons that the generic ones do not reach across the wrap
+    def finish(self, rng, cid, cfg, evs, marks, t, tags, primary_marks=None, ref1=1):
+        pm = primary_marks or marks
+        if pm:
+            m = rng.choice(pm); pad = (self.PHASE - m) % 1000000; primary = m + pad
+        else: pad, primary = 0, 1000000 + self.PHASE
+        if pad: evs = [('ADV', [pad], b'')] + evs; marks = [x + pad for x in marks]; t += pad
+        boots = self.wrap_boots(rng, marks, max(t, 200000), rng.choice([2, 3]), primary)
+        cfg = cfg[:16] + boots; cfg[0] = ref1
+        return F.Case(cid, [('CFG', cfg, b'')] + evs, tags)
+    @staticmethod
+    def preamble(evs, timeout=60):
+        evs += [('ADV', [300000], b''), ('CONNCB', [], b''), ('ADV', [300000], b''), ('REGOK', [timeout], b''), ('ADV', [400000], b'')]
+        return 1000000
+
+    def gen_autocal(self, rng, cid):
+        """auto-calibrated shutter (channel flag RS_AUTO_CALIBRATION, no manual times): the first task runs the calibration
+        (up / down / up measured with the scripted motor), then moves during which the motor stalls (SENSOR -> never in move)
+        or never starts; wrap before the start / inside the 300 ms filter / after start+300 ms / after the stall.
+        Sites: rs_check_motor filter (t - start_time < 300 ms), power-detection window (t - start_time < 2 s),
+        up_time/down_time accumulation, autocalibration time limits."""
+        full = rng.choice([4000, 6000, 10000]); startup = rng.choice([0, 0, 200])
+        cfg = [1, 1, 0, 1, 0, 0, 0, full, full, startup, 0x1000, 0, 0, 0, 0, 0]
+        evs = []; t = self.preamble(evs); rr = 2; marks = []; pm = []
+        def adv(dt):
+            nonlocal t
+            while dt > 0:
+                d = min(dt, 20000000); evs.append(('ADV', [d], b'')); t += d; dt -= d
+        def setv(v):
+            nonlocal rr
+            evs.append(('SRV', [C8.CALL_SET_VALUE, rr], C8.set_value(0, v))); rr += 1
+        p0 = rng.choice([10, 20, 50])
+        setv(10 + p0); marks.append(t)                       # task -> autocalibration -> position p0
+        adv(3 * (full + startup) + 4 * 1100000 // 1 + full * 1000 * 0 + 3 * 400000 + (full * p0 // 100) * 1000 + 3 * full * 1000 + 2000000)
+        pos = p0
+        for _ in range(rng.choice([1, 2, 3])):
+            target = rng.choice([90, 80, 0, 100, 30]) if pos < 50 else rng.choice([10, 0, 20, 60])
+            if target == pos: target = 90 - pos
+            dur = abs(target - pos) * full * 10            # us of travel
+            mode = rng.choice(['stall', 'stall', 'never-starts', 'healthy'])
+            if mode == 'never-starts': evs.append(('SENSOR', [0, 1], b''))
+            t_move = t; setv(10 + target)
+            marks += [t_move - 400000, t_move + 150000]
+            if mode == 'stall':
+                st = rng.choice([700000, 1500000, 3000000]); st = min(st, max(400000, dur - 300000))
+                pm += [t_move + 300000 + max(50000, (st - 300000) // 2), t_move + 150000, t_move - 400000]
+                adv(st); evs.append(('SENSOR', [0, 1], b'')); marks.append(t + 400000); pm.append(t + 400000)
+                adv(max(0, dur - st) + 1500000)
+            else:
+                pm += [t_move + 150000, t_move + 1000000, t_move - 400000]
+                adv(dur + 1500000)
+            evs.append(('SENSOR', [0, 0], b''))
+            adv(rng.choice([1200000, 2500000]))
+            pos = target
+        return self.finish(rng, cid, cfg, evs, marks + pm, t, ['dev', 'dev:autocal-stall'], pm)
+
+    def gen_rs10min(self, rng, cid):
+        """uncalibrated shutter driven for more than 10 minutes: the 600 s limit on up_time/down_time; server talks every 40 s"""
+        cfg = [1, 1, 0, 1, 0, 0, 0, 3000, 3000, 0, 0, 0, 0, 0, 0, 0]
+        evs = []; t = self.preamble(evs); marks = []
+        evs.append(('SRV', [C8.CALL_SET_VALUE, 2], C8.set_value(0, rng.choice([1, 2])))); rr = 3
+        for k in range(16):
+            for _ in range(2): evs.append(('ADV', [20000000], b'')); t += 20000000
+            evs.append(('SRV', [50, rr], bytes(16))); rr += 1; marks.append(t + 3000000)
+        # the 600 s cut-off is evaluated inside the 200 ms report block, so it inherits the report-grid anchor (10 ms shift between
+        # boot = 1 and boot = 1000001: root cause of the known finding, but a GPIO edge, i.e. outside its key): no boot < 200 ms here
+        return self.finish(rng, cid, cfg, evs, marks, t, ['dev', 'dev:rs-10min'], ref1=self.REF2)
+
+    def gen_cfgbtn(self, rng, cid):
+        """configuration button: hold >= CFG_BTN_PRESS_TIME (monostable, on hold) or 10 toggles within 2 s steps (bistable, on
+        toggle) enters config mode; a press later than 3 s after entering leaves it (restart).
+        Sites: input.c last_state_change hold test, 2 s click window, cfgmode enter time + 3 s."""
+        mono = rng.random() < 0.6
+        cfg = [1, 0, 0, 1, 0, 0, 0, 3000, 3000, 0, 0, 2000, 2000, 0, 2 if mono else 4, 0x02 | (0x40 if mono else 0x20)]
+        evs = []; t = self.preamble(evs); marks = []
+        def adv(dt):
+            nonlocal t
+            evs.append(('ADV', [dt], b'')); t += dt
+        if mono:
+            evs.append(('IN', [15, 1], b'')); t0 = t
+            hold = rng.choice([3000000, 4900000, 5200000, 6000000]); marks += [t0 + 200000, t0 + 2500000, t0 + 4800000]
+            adv(hold); evs.append(('IN', [15, 0], b'')); adv(rng.choice([1000000, 3500000])); marks.append(t)
+            evs.append(('IN', [15, 1], b'')); adv(200000); evs.append(('IN', [15, 0], b'')); adv(2000000)
+        else:
+            lvl = 0
+            for k in range(rng.choice([9, 10, 12])):
+                lvl = 1 - lvl; evs.append(('IN', [15, lvl], b'')); marks.append(t + 100000)
+                adv(rng.choice([200000, 400000, 1900000, 2100000]) if rng.random() < 0.3 else 300000)
+            adv(rng.choice([1000000, 3500000])); marks.append(t)
+            lvl = 1 - lvl; evs.append(('IN', [15, lvl], b'')); adv(2000000)
+        return self.finish(rng, cid, cfg, evs, marks, t, ['dev', 'dev:cfg-button'])
+
+    def gen_at(self, rng, cid):
+        """button in action-trigger (advanced) mode on AT channel 5: short press x1/x2, hold; the click counting window
+        (BTN_MULTICLICK_TIME_MS) and the hold time (BTN_HOLD_TIME_MS) are measured from last_state_change.
+        Sites: input.c advanced timer delta_time tests."""
+        caps = (1 << 10) | (1 << 11) | (1 << 12) | (1 << 13)
+        cfg = [1, 0, 0, 1, 0, 0, 0, 3000, 3000, 0, 0, 2000, 2000, 0, 2, caps << 8]
+        evs = []; t = self.preamble(evs); marks = []
+        evs.append(('SRV', [C8.CALL_CFG_RESULT, 2], struct.pack('<BiBHI', 5, 700, 0, 4, rng.choice([caps, (1 << 10) | (1 << 11), (1 << 11) | (1 << 12)]))))
+        def adv(dt):
+            nonlocal t
+            evs.append(('ADV', [dt], b'')); t += dt
+        adv(500000)
+        for _ in range(rng.choice([2, 4, 6])):
+            g = rng.choice(['click', 'double', 'hold', 'triple'])
+            n = {'click': 1, 'double': 2, 'triple': 3, 'hold': 1}[g]
+            for k in range(n):
+                evs.append(('IN', [15, 1], b'')); marks.append(t + 50000)
+                adv(1200000 if g == 'hold' else rng.choice([60000, 150000]))
+                if g == 'hold': marks += [t - 600000, t - 450000]
+                evs.append(('IN', [15, 0], b'')); marks.append(t + 150000)
+                adv(rng.choice([120000, 200000]) if k < n - 1 else rng.choice([500000, 900000]))
+        adv(1500000)
+        return self.finish(rng, cid, cfg, evs, marks, t, ['dev', 'dev:action-trigger'])
+
+    SPECIAL = {'autocal-stall': gen_autocal, 'rs-10min': gen_rs10min, 'cfg-button': gen_cfgbtn, 'action-trigger': gen_at}
 
     def gen_cases(self, rng, n, tier):
         cases = []
@@ -228,6 +348,18 @@ class C19(F.PropCheck):
                 res.append((k, (a[0], a[1]), d))
             else: res.append((k, tuple(a), d))
         return res
+    @staticmethod
+    def same_up_to_frame_shift(a, b, tol=200000):
+        """the non-frame lines (GPIO edges, connection events, restarts) are identical; the remaining frames are the same,
+        in the same order, with the same payload, and their send times differ by less than tol (frames queued behind a
+        position report leave one iterate earlier/later)"""
+        na = [x for x in a if x[0] != 'WIRE']; nb = [x for x in b if x[0] != 'WIRE']
+        if na != nb: return False
+        wa = [x for x in a if x[0] == 'WIRE']; wb = [x for x in b if x[0] == 'WIRE']
+        if len(wa) != len(wb): return False
+        for (ka, aa, da), (kb, ab, db) in zip(wa, wb):
+            if da != db or aa[1:] != ab[1:] or abs(aa[0] - ab[0]) >= tol: return False
+        return True
     def monitor_dev(self, case, outs):
         allruns = self.runs(outs)
         rs = [r for r in allruns if not r['zero'] and not r['crash']]
@@ -248,7 +380,7 @@ class C19(F.PropCheck):
         if ref1['lines'] != ref2['lines']:
             msg = self.describe(ref1, ref2)
             below1 = ref1['boot'] + 10000 < 200000; below2 = ref2['boot'] + 10000 < 200000
-            if below1 != below2 and nsh > 0 and self.without_shutter_reports(ref1['lines'], nsh) == self.without_shutter_reports(ref2['lines'], nsh):
+            if below1 != below2 and nsh > 0 and self.same_up_to_frame_shift(self.without_shutter_reports(ref1['lines'], nsh), self.without_shutter_reports(ref2['lines'], nsh)):
                 # known-finding class: NOT returned as an alarm (the framework's shrinker keeps "any alarm", it would
                 # shrink a genuine boot-dependence into this one); handed to the verdict logic by extra_quick()
                 self._grid_hits.setdefault(case.id, (case, msg + ' ' + self.GRID_TAG))
@@ -264,7 +396,9 @@ class C19(F.PropCheck):
     def finding_key(self, case, what):
         """rs-report-grid-anchor: two runs WITHOUT a wrap-around, one whose counter was below 200 ms at init and one whose
         counter was not, whose traces are identical once the position reports (VALUE_CHANGED, call 100) of the shutter
-        channels are removed (rr numbering of the remaining frames ignored).  Anything else stays a violation."""
+        channels are removed (rr numbering of the remaining frames ignored) — except that the send time of other frames
+        may shift by < 200 ms (they queue behind the reports).  GPIO edges, connection events, restarts, payloads and
+        order must be equal.  Anything else stays a violation."""
         return 'rs-report-grid-anchor' if self.GRID_TAG in what else None
 
 CHECK = C19()
